@@ -10,6 +10,7 @@ package mcrt
 
 import (
 	"fmt"
+	"os"
 	"runtime/debug"
 	"strings"
 	"time"
@@ -36,6 +37,7 @@ type op struct {
 	kind  opKind
 	ch    *chanState
 	val   interface{}
+	vh    uint64 // hash of val, computed once
 	mu    *muState
 	wg    *wgState
 	wake  time.Time
@@ -50,6 +52,7 @@ type thread struct {
 	done     bool
 	aborting bool
 	result   interface{}
+	resH     uint64
 	ok       bool
 	inject   string // runtime panic to raise inside the thread when it resumes
 	parkSeq  int
@@ -61,6 +64,7 @@ type chanState struct {
 	id     int
 	cap    int
 	buf    []interface{}
+	bufH   []uint64 // hashes of buf, in step
 	closed bool
 }
 
@@ -148,6 +152,9 @@ type Sched struct {
 	visited map[uint64]int
 	used    int // deviations spent so far in this execution
 	pruned  bool
+	// full: no deviation bound is in force, so neither the cost spent nor the
+	// identity of the last-run thread is part of the state
+	full bool
 }
 
 // cur is the active scheduler; nil means pass-through mode.
@@ -189,7 +196,9 @@ func (s *Sched) take(n int, env, free, runnable bool, label string) int {
 			s.visited[k] = s.used
 		}
 	}
-	s.used += cost(pt, c)
+	if !s.full {
+		s.used += cost(pt, c)
+	}
 	s.x.points = append(s.x.points, pt)
 	s.x.Choices = append(s.x.Choices, c)
 	if env && s.running != nil {
@@ -237,7 +246,9 @@ func (s *Sched) stateKey(env bool) uint64 {
 	if env {
 		h = mix(h, 0xEE)
 	}
-	if s.last != nil {
+	// which thread ran last matters only while it can still run (switching
+	// away from it is then a preemption); otherwise every choice is free
+	if s.last != nil && !s.full && s.enabled(s.last) {
 		h = mix(h, uint64(s.last.id)+100)
 	}
 	if s.running != nil && env {
@@ -260,7 +271,7 @@ func (s *Sched) stateKey(env bool) uint64 {
 				h = mix(h, uint64(t.pend.ch.id)+1)
 			}
 			if t.pend.kind == opSend {
-				h = mix(h, HashVal(t.pend.val))
+				h = mix(h, t.pend.valHash())
 			}
 			if t.pend.kind == opSleep {
 				h = mix(h, uint64(t.pend.wake.UnixNano()))
@@ -276,8 +287,8 @@ func (s *Sched) stateKey(env bool) uint64 {
 		if c.closed {
 			h = mix(h, 0xC1)
 		}
-		for _, v := range c.buf {
-			h = mix(h, HashVal(v))
+		for _, v := range c.bufH {
+			h = mix(h, v)
 		}
 	}
 	ms := make([]*muState, len(s.mus))
@@ -375,6 +386,13 @@ func (s *Sched) park(o *op) *thread {
 	return t
 }
 
+func (o *op) valHash() uint64 {
+	if o.vh == 0 {
+		o.vh = HashVal(o.val) | 1
+	}
+	return o.vh
+}
+
 type runtimeError string
 
 func (e runtimeError) Error() string { return string(e) }
@@ -459,21 +477,26 @@ func (s *Sched) apply(t *thread) {
 			r := s.waiter(opRecv, o.ch, t)
 			r.result, r.ok = o.val, true
 			r.pend = &op{kind: opResume}
-			r.hist = mix(r.hist, uint64(opRecv)+1, uint64(o.ch.id)+1, HashVal(o.val), 1)
+			r.hist = mix(r.hist, uint64(opRecv)+1, uint64(o.ch.id)+1, o.valHash(), 1)
 		default:
 			o.ch.buf = append(o.ch.buf, o.val)
+			o.ch.bufH = append(o.ch.bufH, o.valHash())
 		}
 	case opRecv:
 		obj = fmt.Sprintf("ch%d", o.ch.id)
 		switch {
 		case len(o.ch.buf) > 0:
 			t.result, t.ok = o.ch.buf[0], true
+			t.resH = o.ch.bufH[0]
 			o.ch.buf = o.ch.buf[1:]
+			o.ch.bufH = o.ch.bufH[1:]
 		case o.ch.closed:
 			t.result, t.ok = nil, false
+			t.resH = 1
 		default:
 			w := s.waiter(opSend, o.ch, t)
 			t.result, t.ok = w.pend.val, true
+			t.resH = w.pend.valHash()
 			w.pend = &op{kind: opResume}
 			w.hist = mix(w.hist, uint64(opSend)+1, uint64(o.ch.id)+1)
 		}
@@ -514,7 +537,7 @@ func (s *Sched) apply(t *thread) {
 		if t.ok {
 			okv = 1
 		}
-		t.hist = mix(t.hist, uint64(opRecv)+1, chid, HashVal(t.result), okv)
+		t.hist = mix(t.hist, uint64(opRecv)+1, chid, t.resH, okv)
 	case opLock, opRLock:
 		t.hist = mix(t.hist, uint64(o.kind)+1, uint64(o.mu.id))
 		o.mu.hist = mix(o.mu.hist, uint64(t.id)+1, uint64(o.kind))
@@ -545,20 +568,46 @@ var Watchdog = 60 * time.Second
 type MachineryFailure string
 
 func (s *Sched) waitParked() {
-	select {
-	case <-s.parked:
-	case <-time.After(Watchdog):
-		name := "?"
-		if s.running != nil {
-			name = s.running.name
-		}
-		panic(MachineryFailure(fmt.Sprintf("thread %q did not reach a hooked operation within %v (blocked outside the scheduler or spinning)", name, Watchdog)))
+	progress++
+	<-s.parked
+}
+
+// progress counts scheduler steps; the watchdog goroutine exits the process
+// (status 3, reported by the coordinator as a machinery failure, never as a
+// verdict) when an active execution makes no step for Watchdog.
+var progress uint64
+var watchdogOnce bool
+
+func startWatchdog() {
+	if watchdogOnce {
+		return
 	}
+	watchdogOnce = true
+	go func() {
+		last, since := uint64(0), time.Now()
+		for {
+			time.Sleep(time.Second)
+			p := progress
+			if cur == nil || p != last {
+				last, since = p, time.Now()
+				continue
+			}
+			if time.Since(since) > Watchdog {
+				name := "?"
+				if s := cur; s != nil && s.running != nil {
+					name = s.running.name
+				}
+				fmt.Fprintf(os.Stderr, "MACHINERY FAILURE: thread %q did not reach a hooked operation within %v (blocked outside the scheduler or spinning)\n", name, Watchdog)
+				os.Exit(3)
+			}
+		}
+	}()
 }
 
 // run executes body as the main thread under this scheduler until the
 // system is quiescent, then releases every remaining thread.
 func (s *Sched) run(body func()) *X {
+	startWatchdog()
 	cur = s
 	defer func() { cur = nil }()
 	s.newThread("main", body)
